@@ -9,7 +9,8 @@
    the DECODER STATE MACHINE of LZ.tla at the real constants, one TLC step per
    header / flag byte / token (DStep); when the machine reaches a terminal class
    the event is accepted iff the library's result is one the specification allows
-   (CompressOKd, ResAllowed).  Rejected event indices are collected in `bad`.  *)
+   (StreamOKd, ResAllowed; the size bounds of C10 are judged on the "size" events).
+   Rejected event indices are collected in `bad`.  *)
 EXTENDS LZ, TLC, Json, IOUtils
 
 Rec == ndJsonDeserialize(IOEnv.TRACE)
@@ -36,7 +37,7 @@ Accept(ev, t) ==
          IF ev.fmt = "lz13" /\ Len(ev.input) = 0
          THEN ev.res.kind \in {"ok", "err"}           \* C09: Ok or Err, nothing more is demanded
          ELSE /\ ev.res.kind = "ok"
-              /\ CompressOKd(ev.fmt, ev.input, ev.res.out, t)
+              /\ StreamOKd(ev.fmt, ev.input, ev.res.out, t)
               /\ ev.rt.kind = "ok" /\ ev.rt.out = ev.input
     [] ev.kind = "dec" -> ResAllowed(ClassOf(Route(ev.entry, ev.stream), t), ev.res)
     [] ev.kind = "size" ->
